@@ -180,7 +180,7 @@ def minimise(v):
         try:
             if any(f['oracle'] == oracle for f in evaluate(dict(case, variants=cand), v.get('engine'))):
                 vs = cand
-        except Exception:
+        except (Exception, core.HarnessError):
             pass
         k -= 1
     v = dict(v, case=dict(case, variants=vs))
